@@ -26,6 +26,7 @@
 EXTENDS Integers, Sequences, FiniteSets, TLC, Json, Randomization
 
 CONSTANTS N3,        \* number of seeded 3x3 matrices over {-1,0,1}; 0 = all 19683
+          N4,        \* number of seeded 4x4 matrices over {-1,0,1} (of 3^16); 0 = none
           BMin       \* constant term of every budget, in ticks
 
 (* ------------------------------------------------------------- budgets *)
@@ -87,6 +88,8 @@ Int2 == { [class |-> "int2x2", n |-> 2, m |-> f] : f \in [1..4 -> -2..2] }
 All3 == [1..9 -> Vals]
 Sel3 == IF N3 = 0 THEN All3 ELSE RandomSubset(N3, All3)      \* seeded by TLC's -seed
 Int3 == { [class |-> "int3x3", n |-> 3, m |-> f] : f \in Sel3 }
+Sel4 == IF N4 = 0 THEN {} ELSE RandomSubset(N4, [1..16 -> Vals])
+Int4 == { [class |-> "int4x4", n |-> 4, m |-> f] : f \in Sel4 }
 
 Calls(rs, n) == [k \in 1..Len(rs) |-> [r |-> rs[k], b |-> B(rs[k], n)]]
 MatrixCase(x) == [kind |-> "matrix", class |-> x.class, n |-> x.n, m |-> Mat(x.n, x.m),
@@ -120,7 +123,7 @@ ObjCase(o, n) == [kind |-> "objective", class |-> o[1], n |-> n, m |-> <<>>,
 
 (* -------------------------------------------------------------- output *)
 VARIABLE c
-Init == \/ \E x \in Int1 \cup Int2 \cup Int3 \cup Structured : c = MatrixCase(x)
+Init == \/ \E x \in Int1 \cup Int2 \cup Int3 \cup Int4 \cup Structured : c = MatrixCase(x)
         \/ \E o \in ObjClasses, n \in 1..2 : c = ObjCase(o, n)
 Next == UNCHANGED c
 Spec == Init /\ [][Next]_c
